@@ -211,10 +211,15 @@ def gen_compute_case(rng, maxpix=48, force=None):
         case['adj'] = force['adj']
     elif 'periodic' in force:
         case['periodic'] = force['periodic']
+        if case['periodic']:
+            case['per_as_list'] = rng.random() < 0.5
+            case['per_spelling'] = rng.choice(['list', 'list', 'tuple', 'array'])
+            case['per_negative'] = rng.random() < 0.3
     elif r < 0.25:
         axes = [a for a in range(len(shape)) if rng.random() < 0.6]
         case['periodic'] = axes or [rng.randrange(len(shape))]
         case['per_as_list'] = rng.random() < 0.5
+        case['per_spelling'] = rng.choice(['list', 'list', 'tuple', 'array'])
         case['per_negative'] = rng.random() < 0.25      # axes spelled as negative numbers (numpy convention)
     elif r < 0.33:
         case['adj'] = 'diag'
